@@ -230,6 +230,62 @@ func ruleChunkIndexing(c *eng.Ctx) {
 				once = false
 			}
 		}
+		if len(incs) == 0 && idxParam != nil {
+			// the counter is handed to a constructor of the package that advances it exactly once (newElementChunk(..., chunkIndex))
+			var handOffs []ssa.CallInstruction
+			eng.Instrs(fn, false, func(in ssa.Instruction) {
+				ci, ok := in.(ssa.CallInstruction)
+				if !ok {
+					return
+				}
+				g := eng.StaticCallee(ci)
+				if g == nil || g.Blocks == nil || g.Pkg != fn.Pkg {
+					return
+				}
+				for i, a := range ci.Common().Args {
+					if a != ssa.Value(idxParam) || i >= len(g.Params) {
+						continue
+					}
+					var gincs []*ssa.Store
+					eng.Instrs(g, false, func(in2 ssa.Instruction) {
+						if st, ok := in2.(*ssa.Store); ok && st.Addr == ssa.Value(g.Params[i]) {
+							gincs = append(gincs, st)
+						}
+					})
+					good := len(gincs) == 1
+					for _, st := range gincs {
+						b, isB := st.Val.(*ssa.BinOp)
+						k, isC := int64(0), false
+						if isB {
+							k, isC = eng.ConstInt(b.Y)
+						}
+						if !isB || b.Op != token.ADD || !isC || k != 1 {
+							good = false
+						}
+						for _, r := range eng.Returns(g) {
+							if !st.Block().Dominates(r.Block()) {
+								good = false
+							}
+						}
+					}
+					if good {
+						handOffs = append(handOffs, ci)
+					}
+				}
+			})
+			once = len(handOffs) > 0
+			for _, r := range eng.Returns(fn) {
+				n := 0
+				for _, ci := range handOffs {
+					if ci.Block().Dominates(r.Block()) {
+						n++
+					}
+				}
+				if n != 1 {
+					once = false
+				}
+			}
+		}
 		c.Check(once, R, eng.FuncName(fn)+"#index++", fn.Pos(), "*chunkIndex advanced exactly once", "the chunk index is not advanced exactly once per created chunk: indices repeat or skip, IDs collide")
 		// the ID is made from the running index (the one thing that differs for every chunk of a document)
 		eng.Instrs(fn, false, func(in ssa.Instruction) {
